@@ -148,7 +148,10 @@ fn main() {
                 for (class, g, value) in cases {
                     ctr += 1;
                     let n = format!("v{}x{}", ep, ctr);
-                    let mut req = format!("{} /v HTTP/1.1\r\nhost: x\r\nx-verif-nonce: {}\r\n", m, n).into_bytes();
+                    // one request in eight goes to a path nothing is registered on
+                    let other = r.gen_range(0..8) == 0;
+                    let target = if other { "/nope" } else { "/v" };
+                    let mut req = format!("{} {} HTTP/1.1\r\nhost: x\r\nx-verif-nonce: {}\r\n", m, target, n).into_bytes();
                     if let Some(v) = &value {
                         req.extend_from_slice(b"x-api-version: ");
                         req.extend_from_slice(v);
@@ -168,7 +171,7 @@ fn main() {
                         .flat_map(|v| v.split(',').map(|x| x.trim().to_string()).collect::<Vec<_>>())
                         .filter(|x| !x.is_empty())
                         .collect();
-                    emit("vreq", json!({"n": n, "m": m, "class": class, "v": g, "status": resp.status,
+                    emit("vreq", json!({"n": n, "m": m, "p": if other { "other" } else { "v" }, "class": class, "v": g, "status": resp.status,
                         "allow": allow, "op": op, "wellformed": resp.wellformed}));
                 }
             }
